@@ -34,6 +34,6 @@ func c02BuildGuards(c c02Case, h http.HandlerFunc) (func(int, http.ResponseWrite
 }
 
 func TestVerif_C02_rest_guards_race(t *testing.T) {
-	kit.Run(t, "C02", "rest-guards-race", kit.Opts{Quick: 1500, Thorough: 32000}, c02Gen,
+	kit.Run(t, "C02", "rest-guards-race", kit.Opts{Quick: 3000, Thorough: 48000}, c02Gen,
 		func(c c02Case) kit.Verdict { return c02Run(t, c, c02BuildGuards, false) })
 }
